@@ -94,7 +94,7 @@ impl Base {
         from_be(&self.r) % (&r9::params().n - 2u32) + 1u32 // the library draws r from [1, N-2]
     }
     fn id(&self) -> Vec<u8> {
-        expand_bytes(self.id_seed, self.id_len)
+        identity(self.id_seed, self.id_len)
     }
     fn msg(&self) -> Vec<u8> {
         expand_bytes(self.msg_seed, self.msg_len)
@@ -170,6 +170,8 @@ pub enum Tamper {
     SSameOtherZ(u64),
     OtherMessage,
     OtherIdentity,
+    /// the identity with the case of its ASCII letters swapped (only when it has letters): another identity
+    IdentityCase,
     OtherMasterKey,
     /// a multi-byte alteration (see props/multi.rs) of the 32 big-endian bytes of h
     MultiH(Multi),
@@ -301,6 +303,13 @@ fn check_tamper(c: &TCase) -> CaseResult {
             id.push(0);
             class = "other-identity";
         }
+        Tamper::IdentityCase => {
+            match case_variant(&id) {
+                Some(v) => id = v,
+                None => return pass(false, "identity-has-no-letters"),
+            }
+            class = "other-identity";
+        }
         Tamper::OtherMasterKey => {
             verifier = master(&((&m.ks % (n - 2u32)) + 1u32));
             class = "other-master-key";
@@ -357,6 +366,7 @@ pub fn tamper_strategy() -> impl Strategy<Value = Tamper> {
         1 => any::<u64>().prop_map(Tamper::SSameOtherZ),
         1 => Just(Tamper::OtherMessage),
         1 => Just(Tamper::OtherIdentity),
+        1 => Just(Tamper::IdentityCase),
         1 => Just(Tamper::OtherMasterKey),
         1 => Just(Tamper::None),
         5 => multi::strategy().prop_map(Tamper::MultiH),
@@ -409,6 +419,15 @@ pub fn run(ctx: &Ctx) {
     ctx.listed("huge_messages", "messages of 2^16-1, 2^16, 2^16+3, 100000 bytes (thorough: up to 2^20+5) with r injected: exact (h, S) and library verification (size thresholds, chunked or parallel hashing)", move || {
         huge.iter().map(|l| Base { ks: gen::hex32(&BigUint::from(0xabcdef02u64)), ks_rel: 0, id_len: 5, id_seed: seed0 ^ *l as u64, msg_len: *l, msg_seed: seed0.wrapping_mul(37) ^ *l as u64, r: Hex(expand_bytes(seed0 ^ 0x7778 ^ *l as u64, 32)) }).collect::<Vec<_>>()
     }, check_sign);
+
+    ctx.listed("structured_identities", "identities as applications write them (names, mailbox-style strings in several capitalisations, non-ASCII text, blanks at the edges, the empty string): exact (h, S) with r injected and library verification; and the signature offered under the identity with the case of its letters swapped, which must be refused", move || {
+        let mut v = Vec::new();
+        for i in 0..structured_identities().len() {
+            v.push(TCase { base: Base { ks: gen::hex32(&BigUint::from(0xabcdef04u64)), ks_rel: ((i % 6) as u8) << 4, id_len: STRUCTURED_ID + i, id_seed: 0, msg_len: 10 + i, msg_seed: seed0 ^ (0x51d0 + i as u64), r: Hex(expand_bytes(seed0 ^ 0x777a ^ i as u64, 32)) }, tamper: Tamper::None });
+            v.push(TCase { base: Base { ks: gen::hex32(&BigUint::from(0xabcdef04u64)), ks_rel: 0, id_len: STRUCTURED_ID + i, id_seed: 0, msg_len: 10 + i, msg_seed: seed0 ^ (0x51d0 + i as u64), r: Hex(expand_bytes(seed0 ^ 0x777a ^ i as u64, 32)) }, tamper: Tamper::IdentityCase });
+        }
+        v
+    }, |c: &TCase| if c.tamper == Tamper::None { check_sign(&c.base) } else { check_tamper(c) });
 
     ctx.listed("long_identities", "identities of 122..129, 250..257, 1000, 4096, 8191, 8192, 65535, 65536, 70000 bytes with r injected: exact (h, S) and library verification (an identity is a byte string of any length)", move || {
         [122usize, 123, 127, 128, 129, 250, 251, 255, 256, 257, 1000, 4096, 8191, 8192, 65535, 65536, 70_000].iter().enumerate().map(|(i, l)| Base { ks: gen::hex32(&BigUint::from(0xabcdef03u64)), ks_rel: ((i % 6) as u8) << 4, id_len: *l, id_seed: seed0 ^ (0x1d00 + i as u64), msg_len: 20 + i, msg_seed: seed0.wrapping_mul(41) ^ i as u64, r: Hex(expand_bytes(seed0 ^ 0x7779 ^ i as u64, 32)) }).collect::<Vec<_>>()
